@@ -71,6 +71,7 @@ structure Agent where
   errSet : Bool := false
   errType : String := ""
   serial : Nat := 0           -- identity of this agent object (its uuid)
+  asked  : Bool := false      -- ghost: its first `next` has walked the init flow's agents-ready gate
 deriving DecidableEq, Repr
 
 structure Proc where
